@@ -45,6 +45,8 @@ void verif_alloc_reset(void);
 unsigned verif_rel_take(void);
 void verif_rel_note(void);
 int verif_tracing(void);
+void verif_heap_mark(void);
+long verif_heap_kib(void);
 unsigned long verif_env(const char *name, unsigned long dflt);
 
 #define VERIF_EV(...)        verif_ev(__VA_ARGS__)
